@@ -159,8 +159,15 @@ func c14(c *Ctx) {
 	rep := c.Rep
 	nHist := c.Size(400, 20000)
 	delays := []time.Duration{0, 0, 0, time.Millisecond, 6 * time.Millisecond}
+	deadlocks := 0
 	for h := 0; h < nHist; h++ {
 		if !c.Mine(h) {
+			continue
+		}
+		if deadlocks >= 3 {
+			// three proven deadlocks in this process: every further history costs a
+			// full watchdog period and proves nothing new
+			rep.Inc("histories_skipped_after_3_deadlocks")
 			continue
 		}
 		r := SubRng(c.Seed, "c14/hist", h)
@@ -197,6 +204,10 @@ func c14(c *Ctx) {
 				dl, sig := engineDeadlocked(inProcessDump())
 				payload := map[string]interface{}{"history": h, "ops": ops}
 				opk := strings.Fields(name)[0]
+				if i := strings.Index(opk, "#"); i > 0 {
+					opk = opk[:i]
+				}
+				deadlocks++
 				if dl {
 					rep.Viol("blocked:"+opk+":deadlock:"+sig, fmt.Sprintf("lifecycle call %s does not return; goroutine dump proves a deadlock (%s); history %v", name, sig, ops), payload)
 				} else {
@@ -527,9 +538,14 @@ func c14race(c *Ctx) {
 	// previous object may still log (a harness artefact, not an engine race)
 	restoreSearchCfg()
 	s, _ := newSearch(1)
+	raceDeadlocks := 0
 	nHist := c.Size(240, 8000)
 	for h := 0; h < nHist; h++ {
 		if !c.Mine(h) {
+			continue
+		}
+		if raceDeadlocks >= 2 {
+			rep.Inc("histories_skipped_after_deadlocks")
 			continue
 		}
 		r := SubRng(c.Seed, "c14/racehist", h)
@@ -543,6 +559,7 @@ func c14race(c *Ctx) {
 			if !withWatchdog(60*time.Second, f) {
 				dl, sig := engineDeadlocked(inProcessDump())
 				if dl {
+					raceDeadlocks++
 					rep.Viol("blocked:"+name+":deadlock:"+sig, "lifecycle call "+name+" does not return (deadlock "+sig+")", nil)
 				} else {
 					rep.Inconclusive("race history: call " + name + " did not return within 60 s: " + sig)
